@@ -372,3 +372,55 @@ func H_C06_twoChecks() {
 	vassert(len(b2.words) >= 1 && !b2.random[0] && b2.words[0] == finalWord, "C06: the next Check did not replay the fail file before any random test case")
 	vassert(len(tbB2.errorfs) == 1 && strings.Contains(tbB2.errorfs[0], "failed after 0 tests"), "C06: the next Check did not fail 'after 0 tests' on the persisted failure")
 }
+
+// zeroTailProp draws two words and fails iff the second is zero.
+type zeroTailProp struct {
+	firstStreamWasBuffer bool
+	calls                int
+	failedCalls          int
+	firstFailed          bool
+}
+
+func (z *zeroTailProp) prop(t *T) {
+	z.calls++
+	if z.calls == 1 {
+		_, isRandom := t.s.(*randomBitStream)
+		z.firstStreamWasBuffer = !isRandom
+	}
+	_ = t.s.drawBits(64)
+	if t.s.drawBits(64) == 0 {
+		z.failedCalls++
+		if z.calls == 1 {
+			z.firstFailed = true
+		}
+		t.Fatalf("second word is zero")
+	}
+}
+
+// H_C17_shortFile: a fail file that has become too short for the property (the test gained a
+// draw, or the file lost its tail) is an unusable file: it is ignored, it is never completed with
+// made-up data, and whatever Check reports afterwards is a test case that really fails.
+func H_C17_shortFile() {
+	vfsReset()
+	flags.checks = 1
+	flags.shrinkTime = 0
+	flags.nofailfile = true
+	flags.seed = 0
+	name := "TestShort"
+	dir, _ := failFileName(name)
+	_ = vfsMkdirAll(dir, 0775)
+	vfs.files[filepath.Join(dir, kindaSafeFilename(name)+"-2026-1.fail")] = rapidVersion + "#7\n0x5" // one word only
+	z := &zeroTailProp{}
+	tb := newVTB(name)
+	runIsolated(func() { checkTB(tb, farDeadline(), z.prop) })
+	vassert(z.firstStreamWasBuffer, "C06: a discoverable fail file was not tried first")
+	if len(tb.errorfs) == 0 {
+		reach("ignored-and-passed")
+		vassert(z.failedCalls == 0, "C02: a test case falsified the property but Check did not fail the test")
+		return
+	}
+	reach("reported")
+	// the first invocation is the replay of the short file: it runs out of data, it cannot fail
+	vassert(!z.firstFailed, "C17: a fail file that is too short for the property was completed with made-up data and reported as the failure")
+	vassert(z.failedCalls > 0, "C01: Check reports a falsification although no executed test case falsified the property")
+}
